@@ -14,7 +14,7 @@ def reference(case):
     st = case['stations']
     n = len(st)
     c = [case['source']['ct']] + [(s['delay'] if s['k'] == 'buffer' else s['ct']) for s in st] + [case['sink']['ct']]
-    K = [1] + [((INF if s['cap'] is None else s['cap']) if s['k'] == 'buffer' else 1) for s in st] + [1]
+    K = [1] + [((INF if s['cap'] is None else int(s['cap'])) if s['k'] == 'buffer' else 1) for s in st] + [1]
     T = case['horizon']
     N = case['source']['parts']
     N = INF if N is None else N
@@ -143,7 +143,7 @@ def gen_case(rng):
     for _ in range(n):
         k = rng.choice(('handler', 'proc', 'proc', 'buffer', 'buffer'))
         if k == 'buffer':
-            st.append({'k': 'buffer', 'cap': rng.choice((1, 2, 3, 5, None)), 'delay': rng.choice((0, 0, 0.25, 0.5, 1, 2))})
+            st.append({'k': 'buffer', 'cap': rng.choice((1, 2, 3, 5, None, 2.5)), 'delay': rng.choice((0, 0, 0.25, 0.5, 1, 2))})
         else:
             st.append({'k': k, 'ct': rng.choice(CTS)})
     case = {'engine': 'linesim', 'stations': st,
